@@ -423,7 +423,11 @@ func (tn *Town) install() {
 				d["url"] = m
 			}
 		}
-		d["replies"] = p.RepliesURL
+		if t.Chance(1, 4) {
+			d["comments"] = p.RepliesURL // the Lemmy spelling
+		} else {
+			d["replies"] = p.RepliesURL
+		}
 		p.Doc = d
 	}
 	// reply collections (after all post docs exist)
